@@ -23,20 +23,15 @@ the MAC was computed over (the authorization header itself being excluded by the
 request, header set (any order, case, blanks, repeats) and body. -/
 theorem signed_is_sent (env : Env) (conn : Conn) (r : Req) (u : UpReq)
     (h : (handle mac env conn r).outcome = .forward u) (guid : Str) (si : List UInt8)
-    (hs : u.signed = some (guid, si))
-    (hprint : ∀ key, valueIsStr (authScheme ++ [' '] ++ guid ++ [' '] ++ mac key si) = true) :
-    sigInput u.method u.body u.headers u.uri = some si := by
+    (hs : u.signed = some (guid, si)) :
+    sigInput u.method u.body u.headers u.uri = si := by
   obtain ⟨_, _, caller, _, _, _, _, _, _, _, _, hfwd⟩ := handle_forward mac env conn r u h
   obtain ⟨hm, hu, hb, _, hcase⟩ := forwardStage_forward mac env caller r u hfwd
   rcases hcase with ⟨_, hn, _⟩ | ⟨_, hn, _⟩ | ⟨guid', key, si', _, _, _, hsi, hh, hsg⟩
   · rw [hn] at hs; cases hs
   · rw [hn] at hs; cases hs
   · rw [hsg] at hs; cases hs
-    obtain ⟨ch, hch, hlay⟩ := sigInput_layout _ _ _ _ _ hsi
-    have hch' := canonHeaders_insert_auth _ _ ch (hprint key) hch
-    rw [hm, hu, hb, hh]
-    unfold sigInput
-    rw [hch', hlay]
+    rw [hm, hu, hb, hh, sigInput_insert_auth, hsi]
 
 /-- **C04(c)** the authorization header of a signed request is `scheme keyId mac`, with the id of
 the key the MAC was computed under (one header: `C05.client_authorization_never_forwarded_when_signed`) -/
@@ -76,40 +71,33 @@ theorem skip_iff (method : Str) (u : Uri) :
 /-- **C04(e)** layout/coverage: the signed string is
 `method LF body LF canonical-headers path LF canonical-parameters`, so the method, every body byte
 and the path are covered verbatim -/
-theorem coverage_layout (method : Str) (body : List UInt8) (hs : Headers) (u : Uri) (si : List UInt8)
-    (h : sigInput method body hs u = some si) :
-    ∃ ch, canonHeaders hs = some ch ∧
-      si = strBytes method ++ [10] ++ body ++ [10] ++ strBytes ch ++ strBytes u.path ++ [10] ++ strBytes (canonParams u) :=
-  sigInput_layout method body hs u si h
+theorem coverage_layout (method : Str) (body : List UInt8) (hs : Headers) (u : Uri) :
+    sigInput method body hs u =
+      utf8 method ++ [10] ++ body ++ [10] ++ utf8 (canonHeaders hs) ++ utf8 u.path ++ [10] ++ utf8 (canonParams u) := rfl
 
-/-- every header name whose last value is `v` contributes the line `name:trim(v) LF` -/
-theorem coverage_headers (hs : Headers) (ch : Str) (h : canonHeaders hs = some ch) (n v : Str)
-    (hm : (n, v) ∈ lastPerName hs) (hn : n ≠ authHeader) :
-    ∃ pre post, ch = pre ++ (n ++ [':'] ++ trimValue v ++ ['\n']) ++ post := by
-  unfold canonHeaders at h
-  split at h
-  · simp only [Option.some.injEq] at h
-    have hmem : (n, v) ∈ (sortBy (fun a b => strLt a.1 b.1) (lastPerName hs)).filter (fun kv => kv.1 ≠ authHeader) := by
-      rw [List.mem_filter]
-      refine ⟨?_, by simpa using hn⟩
-      have : ∀ (l : List (Str × Str)) (x : Str × Str), x ∈ l → x ∈ sortBy (fun a b => strLt a.1 b.1) l := by
-        intro l
-        induction l with
-        | nil => intro x hx; cases hx
-        | cons y ys ih =>
-          intro x hx
-          simp only [sortBy]
-          rw [mem_insertBy]
-          rcases List.mem_cons.mp hx with e | e
-          · exact Or.inl e
-          · exact Or.inr (ih x e)
-      exact this _ _ hm
-    obtain ⟨l1, l2, hl⟩ := List.append_of_mem hmem
-    refine ⟨l1.flatMap (fun kv => kv.1 ++ [':'] ++ trimValue kv.2 ++ ['\n']),
-            l2.flatMap (fun kv => kv.1 ++ [':'] ++ trimValue kv.2 ++ ['\n']), ?_⟩
-    rw [← h, hl]
-    simp [List.flatMap_append, List.flatMap_cons]
-  · cases h
+theorem mem_sortBy {α} (lt : α → α → Bool) (l : List α) (x : α) (h : x ∈ l) : x ∈ sortBy lt l := by
+  induction l with
+  | nil => cases h
+  | cons y ys ih =>
+    simp only [sortBy]
+    rw [mem_insertBy]
+    rcases List.mem_cons.mp h with e | e
+    · exact Or.inl e
+    · exact Or.inr (ih e)
+
+/-- every header name whose last value is `v` contributes the line `name:text(v) LF` -/
+theorem coverage_headers (hs : Headers) (n v : Str) (hm : (n, v) ∈ lastPerName hs) (hn : n ≠ authHeader) :
+    ∃ pre post, canonHeaders hs = pre ++ (n ++ [':'] ++ valueText v ++ ['\n']) ++ post := by
+  unfold canonHeaders
+  simp only
+  have hmem : (n, v) ∈ (sortBy (fun a b => strLt a.1 b.1) (lastPerName hs)).filter (fun kv => kv.1 ≠ authHeader) := by
+    rw [List.mem_filter]
+    exact ⟨mem_sortBy _ _ _ hm, by simpa using hn⟩
+  obtain ⟨l1, l2, hl⟩ := List.append_of_mem hmem
+  refine ⟨l1.flatMap (fun kv => kv.1 ++ [':'] ++ valueText kv.2 ++ ['\n']),
+          l2.flatMap (fun kv => kv.1 ++ [':'] ++ valueText kv.2 ++ ['\n']), ?_⟩
+  rw [hl]
+  simp [List.flatMap_append, List.flatMap_cons]
 
 /-! ### negative witnesses: what the canonical form does NOT cover (known finding F3) -/
 
@@ -130,6 +118,6 @@ theorem repeated_header_last_value_only :
 
 /-! non-vacuity -/
 example : sigInput "GET".toList [] (ofWire [("Host".toList, "h".toList)]) (uriQ "b=2&a=1") =
-    some ("GET\n\nhost:h\n/m\na=1&b=2".toList.map fun c => UInt8.ofNat c.toNat) := by decide
+    utf8 "GET\n\nhost:h\n/m\na=1&b=2".toList := by decide
 
 end Gpa.Props.C04
